@@ -74,3 +74,40 @@ func TestDB_DeleteRangeLeavesInternalKeysAlone(t *testing.T) {
 		assert.NoError(t, factory.Close())
 	}
 }
+
+func TestDB_DeleteRangeWithEmptyBoundsIsEmpty(t *testing.T) {
+	// Pebble treated the two empty bounds as "unbounded" or as an empty range depending on the
+	// iterator it recycled: repeat a few times with iterators used in between
+	for i := 0; i < 50; i++ {
+		factory, err := NewPebbleKVFactory(testKVOptions)
+		assert.NoError(t, err)
+		db, err := NewDB(constant.DefaultNamespace, 1, factory, 1*time.Hour, time2.SystemClock)
+		assert.NoError(t, err)
+
+		_, err = db.ProcessWrite(&proto.WriteRequest{Puts: []*proto.PutRequest{
+			{Key: "a", Value: []byte("0")},
+			{Key: "a/b", Value: []byte("0")},
+		}}, 0, 1, NoOpCallback)
+		assert.NoError(t, err)
+
+		if i%2 == 1 {
+			it, err := db.List(&proto.ListRequest{StartInclusive: "a", EndExclusive: "b"})
+			assert.NoError(t, err)
+			assert.NoError(t, it.Close())
+		}
+
+		_, err = db.ProcessWrite(&proto.WriteRequest{DeleteRanges: []*proto.DeleteRangeRequest{
+			{StartInclusive: "", EndExclusive: ""},
+		}}, 1, 2, NoOpCallback)
+		assert.NoError(t, err)
+
+		for _, key := range []string{"a", "a/b"} {
+			gr, err := db.Get(&proto.GetRequest{Key: key})
+			assert.NoError(t, err)
+			assert.Equal(t, proto.Status_OK, gr.Status)
+		}
+
+		assert.NoError(t, db.Close())
+		assert.NoError(t, factory.Close())
+	}
+}
